@@ -4161,8 +4161,11 @@ coap_dispatch(coap_context_t *context, coap_session_t *session,
     goto cleanup;
 
   case COAP_MESSAGE_NON:
-    /* find transaction in sendqueue in case large response */
-    coap_remove_from_queue(&context->sendqueue, session, pdu->mid, &sent);
+    /*
+     * The message id of a Non-confirmable message is from the peer's id space
+     * and says nothing about the messages in the sendqueue. A request that is
+     * answered by this message is cancelled by token in handle_response().
+     */
     /* check for unknown critical options */
     if (coap_option_check_critical(session, pdu, &opt_filter) == 0) {
       packet_is_bad = 1;
